@@ -27,8 +27,6 @@ Fixpoint spec_run (o : oracle) (h w : nat) (scr : screen) (drawn : grid cell)
          | Draw g => spec_run o h w scr' g ops' impl'
          | Frame => same_display scr' (show o h w drawn)
                     && spec_run o h w scr' (gmake h w cell_default) ops' impl'
-         | Clear => spec_run o h w scr' drawn ops' impl'
-             (* clear() forces the next frame to repaint; what the application drew stays drawn *)
          | Resize h' w' _ => spec_run o h' w' scr' (gmake h' w' cell_default) ops' impl'
          | _ => spec_run o h w scr' (gmake h w cell_default) ops' impl'
          end
